@@ -13,7 +13,7 @@
 EXTENDS Integers, Sequences, FiniteSets, TLC, Json
 
 CONSTANTS T,         \* session timeout
-          MOO, AL, MaxTs, MaxEv, Keys, ChanCap, LateAnyKey,
+          MOO, AL, MaxTs, MaxEv, Keys, ChanCap, LateAnyKey, KeepOlder, OnlyLate,
           DevMerge,  \* admit "SessionMergeAcrossGap"
           DevStart,  \* admit "SessionStartFirstArrival"
           Emit
@@ -56,7 +56,7 @@ Add(k, ts) ==
      /\ maxTs' = NewMax(ts) /\ wmCur' = wm1
      /\ wmSent' = IF send THEN wm1 ELSE wmSent
      /\ wmChan' = IF send THEN Append(wmChan, wm1) ELSE wmChan
-     /\ emitted' = Append(emitted, [id |-> id, ts |-> ts, key |-> k, late |-> late])
+     /\ emitted' = Append(emitted, [id |-> id, ts |-> ts, key |-> k, late |-> late, wmAt |-> wm1])
      /\ hist' = Append(hist, [a |-> "add", id |-> id, ts |-> ts, g |-> k])
      /\ IF late
           THEN IF AL > 0 /\ oi # {}
@@ -64,7 +64,7 @@ Add(k, ts) ==
                         LET rows == Append(open[i].rows, row) IN
                         /\ open' = [open EXCEPT ![i].rows = rows]
                         /\ out' = Append(out, [key |-> open[i].key, start |-> open[i].start, end |-> open[i].end,
-                                               ids |-> Ids(rows), kind |-> "late", maxAt |-> NewMax(ts)])
+                                               ids |-> Ids(rows), kind |-> "late", maxAt |-> NewMax(ts), n |-> id])
                         /\ sess' = sess
                  ELSE UNCHANGED <<sess, open, out>>
           ELSE /\ sess' = [sess EXCEPT ![k] =
@@ -83,7 +83,9 @@ Trig ==
          exp == {k \in Keys : sess[k] # Nil /\ wm >= sess[k].end}
          ord == CHOOSE sq \in [1..Cardinality(exp) -> exp] : \A i, j \in 1..Cardinality(exp) : i # j => sq[i] # sq[j]
          bat == [i \in 1..Cardinality(exp) |-> [key |-> ord[i], rows |-> sess[ord[i]].rows, start |-> sess[ord[i]].start, end |-> sess[ord[i]].end]]
-         op1 == IF AL > 0 THEN SelectSeq(open, LAMBDA o : o.key \notin exp) \o bat ELSE open
+         \* fired sessions stay open for late events until watermark >= end + AL; KeepOlder = FALSE: the code before the
+         \* repair kept only the most recently fired session of a key
+         op1 == IF AL > 0 THEN (IF KeepOlder THEN open ELSE SelectSeq(open, LAMBDA o : o.key \notin exp)) \o bat ELSE open
      IN
      /\ wmChan' = Tail(wmChan) /\ twm' = wm
      /\ sess' = [k \in Keys |-> IF k \in exp THEN Nil ELSE sess[k]]
@@ -95,7 +97,7 @@ Trig ==
 Send ==
   /\ tpc = "fired"
   /\ out' = out \o [i \in 1..Len(pend) |-> [key |-> pend[i].key, start |-> pend[i].start, end |-> pend[i].end,
-                                             ids |-> Ids(pend[i].rows), kind |-> "first", maxAt |-> maxTs]]
+                                             ids |-> Ids(pend[i].rows), kind |-> "first", maxAt |-> maxTs, n |-> Len(emitted)]]
   /\ pend' = <<>> /\ tpc' = "idle"
   /\ hist' = Append(hist, [a |-> "send"])
   /\ UNCHANGED <<sess, open, maxTs, wmCur, wmSent, wmChan, twm, emitted>>
@@ -144,8 +146,20 @@ NoLoss == Quiet => \A id \in 1..Len(emitted) :
 NoSplit == \A i, j \in 1..Len(out) : (i # j /\ out[i].kind = "first" /\ out[j].kind = "first" /\ out[i].key = out[j].key) =>
               \A a \in OnT(out[i].ids), b \in OnT(out[j].ids) : Ts(a) - Ts(b) >= T \/ Ts(b) - Ts(a) >= T
 
+\* C02 for sessions: a late event inside a fired session of its key that is still within the allowance is re-delivered with it
+LateOwedOK == \A i \in 1..Len(out) : out[i].kind = "late" =>
+                 \E j \in 1..(i-1) : out[j].key = out[i].key /\ out[j].start = out[i].start /\ SeqSet(out[j].ids) \subseteq SeqSet(out[i].ids)
+NoLateDrop == \A id \in 1..Len(emitted) :
+                 (emitted[id].late /\ \E i \in 1..Len(out) : /\ out[i].kind = "first" /\ out[i].key = emitted[id].key
+                                                              /\ out[i].start <= emitted[id].ts /\ emitted[id].ts < out[i].end
+                                                              /\ out[i].end + AL > emitted[id].wmAt /\ out[i].n < id)      \* delivered before the event was emitted
+                 => \E j \in 1..Len(out) : id \in SeqSet(out[j].ids)
 WmOK == /\ wmSent <= wmCur /\ (maxTs # -1 => wmCur = maxTs - MOO)
         /\ \A i \in 1..Len(wmChan) : i > 1 => wmChan[i-1] < wmChan[i]
-EmitScenario == (Emit /\ Complete) => PrintT(<<"SCEN", ToJson(hist)>>)
+\* OnlyLate: print only behaviours in which a late event was absorbed by an OLDER fired session of its key (two fired sessions
+\* of one key inside the allowance) - the rare shape among all behaviours
+OlderAbsorb == \E i \in 1..Len(out) : /\ out[i].kind = "late"
+                                       /\ \E j \in 1..Len(out) : out[j].kind = "first" /\ out[j].key = out[i].key /\ out[j].start > out[i].start /\ out[j].n < out[i].n
+EmitScenario == (Emit /\ Complete /\ (OnlyLate => OlderAbsorb)) => PrintT(<<"SCEN", ToJson(hist)>>)
 View == <<sess, open, maxTs, wmCur, wmSent, wmChan, tpc, twm, pend, out, emitted>>
 =============================================================================
